@@ -70,6 +70,8 @@ func main() {
 		os.Exit(cmdList(os.Args[2:]))
 	case "canary":
 		os.Exit(cmdCanary(os.Args[2:]))
+	case "replay":
+		os.Exit(cmdReplay(os.Args[2:]))
 	default:
 		fmt.Fprintln(os.Stderr, "unknown command", os.Args[1])
 		os.Exit(2)
@@ -130,6 +132,9 @@ func cmdDump(args []string) int {
 	}
 	for _, w := range rep.Warnings {
 		fmt.Println("WARN", w)
+	}
+	for _, c := range sortedKeys(rep.Callees) {
+		fmt.Println("CALLEE", c, "=>", rep.Callees[c])
 	}
 	for _, w := range rep.Errors {
 		fmt.Println("ERROR", w)
@@ -204,6 +209,37 @@ func runCheck(P *Program, DB *ContractDB, prop, tier string, only string) *check
 			res.errors = append(res.errors, "contract-unresolved: "+e)
 		}
 		obls = append(obls, rep.Obligations...)
+	}
+	hasProp := func(ps []string) bool {
+		for _, p := range ps {
+			if p == prop {
+				return true
+			}
+		}
+		return false
+	}
+	addRep := func(rep *FuncReport) {
+		res.reports = append(res.reports, rep)
+		res.funcs = append(res.funcs, rep.Func)
+		for _, e := range rep.Errors {
+			res.errors = append(res.errors, "contract-unresolved: "+e)
+		}
+		obls = append(obls, rep.Obligations...)
+	}
+	for _, name := range sortedKeys(DB.FuncAlias) {
+		if hasProp(DB.FuncAliasProps[name]) && (only == "" || strings.Contains(name, only)) {
+			addRep(VerifyFuncAlias(P, DB, name, DB.FuncAlias[name], prop))
+		}
+	}
+	for _, en := range DB.Enums {
+		if hasProp(en.Props) && (only == "" || strings.Contains(en.Spec, only)) {
+			addRep(VerifyEnum(P, DB, en, prop))
+		}
+	}
+	for _, cs := range DB.CallSites {
+		if hasProp(cs.Props) && only == "" {
+			addRep(VerifyCallSites(P, DB, cs, prop))
+		}
 	}
 	for _, name := range sortedKeys(DB.ZeroGlobals) {
 		has := false
@@ -401,10 +437,7 @@ func report(P *Program, DB *ContractDB, res *checkResult, prop, tier string, wri
 			nObl++
 			nFailed++
 			path := writeReplay(replayDir, prop, r, res)
-			suffix := ""
-			if r.Verdict != "sat" || true {
-				suffix = " no-failing-input-found"
-			}
+			suffix := " no-failing-input-found"
 			if rp := runReplayFor(prop, r, path); rp != "" {
 				suffix = rp
 			}
@@ -549,7 +582,81 @@ func extraAssumptions(prop string) []string {
 }
 
 
-func runReplayFor(prop string, r *oblRecord, path string) string { return "" }
+
+type replayScenario struct {
+	Match  string `json:"match"`
+	File   string `json:"file"`
+	PkgDir string `json:"pkgdir"`
+	Run    string `json:"run"`
+	What   string `json:"what"`
+}
+
+// runReplayFor runs the registered scenario of a failed obligation against the
+// real code (go test -overlay: the test file and the QUIC stub are injected,
+// nothing is written into /repo). Returns "" when no scenario is registered,
+// otherwise the suffix for the VIOLATION line.
+func runReplayFor(prop string, r *oblRecord, path string) string {
+	b, err := os.ReadFile(filepath.Join(VerifDir, "replay", "scenarios.json"))
+	if err != nil {
+		return ""
+	}
+	var scs []replayScenario
+	if json.Unmarshal(b, &scs) != nil {
+		return ""
+	}
+	for _, sc := range scs {
+		if !strings.HasPrefix(r.Name, sc.Match) {
+			continue
+		}
+		out, failed, cmdline := runScenario(sc)
+		// append to the replay file
+		var doc map[string]any
+		if fb, err := os.ReadFile(path); err == nil {
+			json.Unmarshal(fb, &doc)
+		}
+		if doc == nil {
+			doc = map[string]any{}
+		}
+		doc["replay_scenario"] = sc.What
+		doc["replay_test"] = filepath.Join(VerifDir, "replay", "scenarios", sc.File)
+		doc["replay_cmd"] = cmdline
+		doc["replay_output"] = out
+		doc["replayed_on_real_code"] = failed
+		nb, _ := json.MarshalIndent(doc, "", " ")
+		os.WriteFile(path, nb, 0o644)
+		if failed {
+			return " replayed-on-real-code"
+		}
+		return " no-failing-input-found"
+	}
+	return ""
+}
+
+func runScenario(sc replayScenario) (output string, failed bool, cmdline string) {
+	tmp, err := os.MkdirTemp("", "govc-replay-")
+	if err != nil {
+		return err.Error(), false, ""
+	}
+	defer os.RemoveAll(tmp)
+	ov := map[string]map[string]string{"Replace": {
+		filepath.Join(RepoDir, "quic", "quic.go"):    filepath.Join(VerifDir, "replay", "quicstub", "quic.go"),
+		filepath.Join(RepoDir, "quic", "inherit.go"): filepath.Join(VerifDir, "replay", "quicstub", "inherit.go"),
+		filepath.Join(RepoDir, sc.PkgDir, "zz_govc_replay_test.go"): filepath.Join(VerifDir, "replay", "scenarios", sc.File),
+	}}
+	ob, _ := json.Marshal(ov)
+	ovf := filepath.Join(tmp, "ov.json")
+	os.WriteFile(ovf, ob, 0o644)
+	args := []string{"test", "-overlay", ovf, "-vet=off", "-count=1", "-timeout", "120s", "-run", "^" + sc.Run + "$", "./" + sc.PkgDir}
+	cmd := exec.Command("go", args...)
+	cmd.Dir = RepoDir
+	cmd.Env = goEnv()
+	b, err := cmd.CombinedOutput()
+	out := string(b)
+	if len(out) > 6000 {
+		out = out[:6000] + "…"
+	}
+	return out, err != nil, "cd /repo && go " + strings.Join(args, " ")
+}
 
 // ---------------------------------------------------------------------------
 // Must-fail corpus
@@ -723,4 +830,39 @@ func cmdCanary(args []string) int {
 		return 2
 	}
 	return 0
+}
+
+// cmdReplay runs registered replay scenarios against the real code:
+// govc replay [-match substring]. Exit 1 if any scenario FAILS (= the defect reproduces).
+func cmdReplay(args []string) int {
+	fs := flag.NewFlagSet("replay", flag.ExitOnError)
+	match := fs.String("match", "", "substring of the obligation or file name")
+	fs.Parse(args)
+	b, err := os.ReadFile(filepath.Join(VerifDir, "replay", "scenarios.json"))
+	if err != nil {
+		fmt.Fprintln(os.Stderr, err)
+		return 2
+	}
+	var scs []replayScenario
+	if err := json.Unmarshal(b, &scs); err != nil {
+		fmt.Fprintln(os.Stderr, err)
+		return 2
+	}
+	rc := 0
+	for _, sc := range scs {
+		if *match != "" && !strings.Contains(sc.Match, *match) && !strings.Contains(sc.File, *match) {
+			continue
+		}
+		out, failed, cmdline := runScenario(sc)
+		st := "passes (defect not reproduced)"
+		if failed {
+			st = "FAILS (defect reproduced on the real code)"
+			rc = 1
+		}
+		fmt.Printf("REPLAY %s: %s\n  %s\n", sc.File, st, cmdline)
+		if failed {
+			fmt.Println(out)
+		}
+	}
+	return rc
 }
